@@ -103,3 +103,13 @@ def shard_slice(it, rec):
     for i, x in enumerate(it):
         if i % rec.nshards == rec.shard:
             yield x
+
+
+def with_scramble(case):
+    """half of all cases are built with a pseudo-random insertion order of states / symbols / transitions
+    (deterministic function of the case, so replays rebuild the same object)"""
+    if 'scr' not in case:
+        from vt.rec import h64
+        h = int(h64(jsonable(case)), 16)
+        case['scr'] = (h >> 8) % 100000 if h % 2 == 0 else None
+    return case
